@@ -69,14 +69,18 @@ ASSUME ToDays(1972, 2, 29) = 789
 \* A step kind: name, whole days, milliseconds (positive or negative)
 Kinds == { <<"Z1", 0, 1>>, <<"S1", 0, 1000>>, <<"M1", 0, 60000>>, <<"H1", 0, 3600000>>,
            <<"D1", 1, 0>>, <<"D31", 31, 0>>, <<"D365", 365, 0>>,
-           <<"B1", 0, -1000>>, <<"S3661", 0, 3661000>> }
+           <<"B1", 0, -1000>>, <<"S3661", 0, 3661000>>,
+           <<"DM1", -1, 0>>, <<"DMD", 0, 0>> }       \* one day back; back by the day of the month (lands on the last day of the previous month)
+KDays(k) == IF k[1] = "DMD" THEN 0 - d ELSE k[2]
 
 \* Successor instant of the current state: <<date, dayNo, tod>>
 Shift(k) ==
   LET t1 == tod + k[3]
-      dt0 == IF k[2] = 0 THEN <<y, m, d>> ELSE IF k[2] = 1 THEN NextDate(<<y, m, d>>)
-             ELSE FromDays(dayNo + k[2])     \* FromDays is validated by LoopsInvert in the same run
-      dn0 == dayNo + k[2]
+      kd == KDays(k)
+      dt0 == IF kd = 0 THEN <<y, m, d>> ELSE IF kd = 1 THEN NextDate(<<y, m, d>>)
+             ELSE IF dayNo + kd < 0 THEN <<1969, 12, 31>>            \* before 1970: outside the domain (the driver skips it)
+             ELSE FromDays(dayNo + kd)     \* FromDays is validated by LoopsInvert in the same run
+      dn0 == dayNo + kd
   IN IF t1 >= DayMs THEN <<NextDate(dt0), dn0 + 1, t1 - DayMs>>
      ELSE IF t1 < 0 THEN <<PrevDate(dt0), dn0 - 1, t1 + DayMs>>
      ELSE <<dt0, dn0, t1>>
@@ -134,8 +138,8 @@ LoopsInvert == (tod = CHOOSE t \in Tods : \A u \in Tods : t <= u) => FromDays(da
 OrderAgrees == \A k \in Kinds :
                  LET s == Shift(k) IN
                  /\ LexCmp(AllFields(<<y, m, d>>, tod), AllFields(s[1], s[3])) = InstCmp(dayNo, tod, s[2], s[3])
-                 /\ (s[2] - dayNo - k[2]) * DayMs + (s[3] - tod) = k[3]
-                 /\ (k[2] > 1 /\ s[1][1] <= Y1 + 1 => s[2] = ToDays(s[1][1], s[1][2], s[1][3]))
+                 /\ (s[2] - dayNo - KDays(k)) * DayMs + (s[3] - tod) = k[3]
+                 /\ ((KDays(k) > 1 \/ (KDays(k) < 0 /\ s[2] >= 0)) /\ s[1][1] <= Y1 + 1 => s[2] = ToDays(s[1][1], s[1][2], s[1][3]))
 OrderAgreesX == \A o \in {x \in XOffsets : tod + x >= 0 /\ tod + x < DayMs} :
                    LexCmp(AllFields(<<y, m, d>>, tod), AllFields(<<y, m, d>>, tod + o)) = Sign(0 - o)
 DayChain == [][dayNo' = dayNo + 1 /\ <<y', m', d'>> = NextDate(<<y, m, d>>)]_vars
